@@ -124,6 +124,13 @@ def property_checks(inp):
     P = numpy.abs(X) ** 2
     A(("tps = mean |FFT|^2 over centroids", float(numpy.max(numpy.abs(m - P[..., :nfr // 2, :].mean(-1))) / numpy.max(P)), 1e-12))
     A(("tps_err = std/sqrt(n)", float(numpy.max(numpy.abs(e - P[..., :nfr // 2, :].std(-1) / numpy.sqrt(nc))) / numpy.max(P)), 1e-12))
+    # a full-size sensor: hundreds of sub-apertures of very unequal power (the mean is over ALL of them, each weighing the same)
+    ncb = inp.get("nc_big", 300)
+    db = npr.normal(size=(16, ncb)) * (10.0 ** npr.uniform(-2, 2, size=ncb))[None, :]
+    mb, eb = tp.calc_slope_temporalps(db)
+    Pb = numpy.abs(numpy.fft.fft(db, axis=0)) ** 2
+    A(("tps = mean |FFT|^2 over %s sub-apertures of unequal power" % ("> 256" if ncb > 256 else "many"), float(numpy.max(numpy.abs(mb - Pb[:8].mean(-1))) / numpy.max(Pb[:8].mean(-1))), 1e-12))
+    A(("tps_err = std/sqrt(n) over many sub-apertures", float(numpy.max(numpy.abs(eb - Pb[:8].std(-1) / numpy.sqrt(ncb))) / numpy.max(Pb[:8].std(-1))), 1e-12))
     s = inp["s"]
     m2, _ = tp.calc_slope_temporalps(s * d)
     A(("tps quadratic in amplitude", float(numpy.max(numpy.abs(m2 - s * s * m)) / (s * s * numpy.max(m))), 1e-9))
@@ -173,7 +180,7 @@ def screens_follow_analytic(base):
 def gen_input(rng):
     return {"R": rng.randint(6, 40), "C": rng.randint(8, 40), "step": rng.randint(1, 4), "a": rng.uniform(-3, 3), "s": rng.uniform(0.3, 4),
             "nfr": rng.randint(4, 64), "nc": rng.randint(1, 8), "lead": list(rng.choice([(), (2,), (2, 3)])), "kbin": rng.randint(0, 30),
-            "rate": rng.loguniform(1, 2000), "R2": rng.randint(2, 12), "Cextra": rng.randint(0, 6), "data_seed": rng.getrandbits(32)}
+            "rate": rng.loguniform(1, 2000), "R2": rng.randint(2, 12), "nc_big": rng.choice([257, 300, 700, 130, 512, 1000]), "Cextra": rng.randint(0, 6), "data_seed": rng.getrandbits(32)}
 
 
 def falsify(ctx, deep=False):
